@@ -31,9 +31,9 @@ def run(ctx):
     nontrivial = set()
     # ---- leg 1: registries x filters x ignore x reverse/shuffle x repeat, every permutation a shuffle may produce
     cfg = ctx.write_cfg("MC_TestRun_select", T.MC % {"spec": "MCSpec", "cap": cap, "exc": "TRUE", "maxset": 2, "locs": "1, 2", "mode": "select",
-                        "maxtests": 2, "evs": '"ok"', "invs": T.INVS})
-    r = ctx.model_check("MC_TestRun", cfg, workers=16, timeout=3000, heap="16g")
-    ctx.notes["model"] = {"distinct_states": r.distinct, "depth": r.depth, "constants": "<=2 tests over 3 groups x 2 names x ignored, 4 group-filter lists, "
+                        "maxtests": 2 if quick else 3, "evs": '"ok"', "invs": T.INVS})
+    r = ctx.model_check("MC_TestRun", cfg, workers=16, timeout=3000, heap="24g")
+    ctx.notes["model"] = {"distinct_states": r.distinct, "depth": r.depth, "constants": ("<=2" if quick else "<=3") + " tests over 3 groups x 2 names x ignored, 4 group-filter lists, "
                           "3 name-filter lists, run-ignored, reverse, shuffle (all permutations), repeat 1..2"}
     # ---- leg 2: TLC-generated programs; the shuffle draws chosen by TLC are forced through the PlatformSpecificRand seam
     gcfg = ctx.write_cfg("Gen_TestRun_select", T.MC % {"spec": "GSpec", "cap": cap, "exc": "TRUE", "maxset": 2, "locs": "1, 2", "mode": "select",
